@@ -445,29 +445,52 @@ theorem C05_model_dynamics_int {b : Base} {lv : List (Name × Nat)}
   have hfa := mapM_ok_forall₂ _ _ _ hg
   exact forall₂_map_sum _ _ hfa (fun r grp hmem hgr => group_dynamicsI hgr (hr r hmem) σ hσ x)
 
-/-- **coefficients that are not Python `int`s** (what the driver runs, `buildModelP`): the
-    isotopomer mapper unpacks a *mapped* reaction's stoichiometry with `v < 0` and `[k] * v`, so only
-    `int` coefficients pass (`intCoefs` succeeds exactly on them and then returns them) and a `float`
-    — even `-1.0` — or a `Derived` coefficient is a `TypeError` whatever the map; an unmapped reaction
-    is passed through without being unpacked; with no raw coefficients listed the entry point is
-    `buildModelI` -/
-theorem C05_noninteger_coefficients (lv : List (Name × Nat)) (maps : List (Name × List Int))
+/-- **coefficients as the base model stores them** (`int | float | Derived`; what the driver runs,
+    `buildModelP`).  After repo commit "fix: LabelMapper accepts whole-number float coefficients ..."
+    `_unpack_stoichiometries` reads every whole number the same way, whether written `-1` or `-1.0`
+    (`intCoefs` on any such spelling returns the integers, and it succeeds on nothing else); the only
+    rejections are a `Derived` (`TypeError`) and a fractional float (`ValueError`), whichever comes
+    first, before the map is looked at; an unmapped reaction is passed through without being
+    unpacked; a mapped reaction whose coefficients are whole numbers gives exactly the isotopomer
+    reactions of the integer stoichiometry (so every theorem above applies to it); with no raw
+    coefficients listed the entry point is `buildModelI` -/
+theorem C05_raw_coefficients (lv : List (Name × Nat)) (maps : List (Name × List Int))
     (raw : List (Name × List (Name × Coef))) (r : BRxn) :
-    (∀ st ist, intCoefs st = .ok ist ↔ st = ist.map fun kv => (kv.1, Coef.int kv.2)) ∧
-    (∀ st e, intCoefs st = .error e → e = .typeError) ∧
-    (∀ lm st, maps.lookup r.name = some lm → raw.lookup r.name = some st →
-      (¬ ∃ ist : List (Name × Int), st = ist.map fun kv => (kv.1, Coef.int kv.2)) →
-      buildRxnP lv maps raw r = .error .typeError) ∧
+    (∀ l : List ((Name × Int) × Bool), intCoefs (l.map fun x => asRaw x.1 x.2) = .ok (l.map (·.1))) ∧
+    (∀ st ist, intCoefs st = .ok ist →
+      ∃ fl : List Bool, fl.length = ist.length ∧ st = (ist.zip fl).map fun x => asRaw x.1 x.2) ∧
+    (∀ st e, intCoefs st = .error e → e = .typeError ∨ e = .valueError) ∧
+    (∀ (pre : List ((Name × Int) × Bool)) k post,
+      intCoefs ((pre.map fun x => asRaw x.1 x.2) ++ (k, Coef.derived) :: post) = .error .typeError) ∧
+    (∀ (pre : List ((Name × Int) × Bool)) k q post, ((pyTrunc q : Int) : Rat) ≠ q →
+      intCoefs ((pre.map fun x => asRaw x.1 x.2) ++ (k, Coef.float q) :: post) = .error .valueError) ∧
+    (∀ lm st e, maps.lookup r.name = some lm → raw.lookup r.name = some st → intCoefs st = .error e →
+      buildRxnP lv maps raw r = .error e) ∧
+    (∀ lm (l : List ((Name × Int) × Bool)), maps.lookup r.name = some lm →
+      raw.lookup r.name = some (l.map fun x => asRaw x.1 x.2) →
+      buildRxnP lv maps raw r = isotopomerReactionsI lv { r with stoich := l.map (·.1) } lm) ∧
     (maps.lookup r.name = none → buildRxnP lv maps raw r = .ok [unmappedRxn lv r]) ∧
     (∀ b il, buildModelP b lv maps [] il = buildModelI b lv maps il) := by
-  refine ⟨intCoefs_ok_iff, fun st e h => intCoefs_error h, ?_, ?_, fun b il => buildModelP_nil b lv maps il⟩
-  · intro lm st hl hr hno
-    simp only [buildRxnP, hl, hr]
-    cases hi : intCoefs st with
-    | ok ist => exact absurd ⟨ist, (intCoefs_ok_iff st ist).mp hi⟩ hno
-    | error e => rw [intCoefs_error hi]; rfl
+  refine ⟨intCoefs_integral, fun st ist h => intCoefs_ok h, fun st e h => intCoefs_error h,
+    fun pre k post => (intCoefs_first_bad pre k .derived post).1 rfl,
+    fun pre k q post hq => (intCoefs_first_bad pre k (.float q) post).2 q rfl hq,
+    ?_, ?_, ?_, fun b il => buildModelP_nil b lv maps il⟩
+  · intro lm st e hl hr he
+    simp only [buildRxnP, hl, hr, he, bind, Except.bind]
+  · intro lm l hl hr
+    simp only [buildRxnP, hl, hr, intCoefs_integral, bind, Except.bind]
   · intro hl
     simp [buildRxnP, hl, pure, Except.pure]
+
+/-- non-vacuity: `{"A": -1.0, "B": 1}` is read as `{"A": -1, "B": 1}`; `5/2` is refused with
+    `ValueError`, a `Derived` with `TypeError` -/
+example :
+    intCoefs [("A", .float (-1)), ("B", .int 1)] = .ok [("A", -1), ("B", 1)] ∧
+    intCoefs [("A", .int (-1)), ("B", .float (5/2))] = .error .valueError ∧
+    intCoefs [("A", .derived), ("B", .float (5/2))] = .error .typeError := by
+  have h : ((pyTrunc (5/2) : Int) : Rat) ≠ 5/2 := by decide +kernel
+  refine ⟨by rfl, ?_, by rfl⟩
+  simp [intCoefs, h, bind, Except.bind]
 
 /-- the facts regenerated from the current `label_map.py` by `translate/c05.py` are the ones the
     model is written for: every mirrored function has its modelled statement shape (no decorator,
